@@ -27,7 +27,7 @@ use wirm::ir::id::{FunctionID, ModuleID};
 use wirm::iterator::component_iterator::ComponentIterator;
 use wirm::iterator::iterator_trait::{IteratingInstrumenter, Iterator as WIterator};
 use wirm::iterator::module_iterator::ModuleIterator;
-use wirm::opcode::Opcode;
+use wirm::opcode::{Instrumenter, Opcode};
 use wirm::{Component, Location};
 
 #[derive(Serialize, Deserialize, Clone, Debug, PartialEq, Eq)]
@@ -59,6 +59,10 @@ pub struct Case {
     nest_at: Option<usize>,
     #[serde(default)]
     plan: Vec<Probe>,
+    /// apply the plan up front through the location-addressed API (`*_at(loc)` + `add_instr_at(loc, op)`)
+    /// from a fresh iterator, instead of at the visited location
+    #[serde(default)]
+    at_api: bool,
 }
 
 // ---------------------------------------------------------------------------------------------
@@ -240,6 +244,60 @@ struct PlanState<'p> {
 
 /// Walk an iterator from its current position until `next()` returns `None`, recording
 /// (curr_loc, is_end, curr_op) and applying the planned probes at matching locations.
+/// Apply the probes of module `only_mod` (all modules if None) through the location-addressed API.
+fn apply_at<'b, T>(it: &mut T, plan: &[Probe], only_mod: Option<u32>, component_locs: bool) -> Result<(), PanicInfo>
+where
+    T: Instrumenter<'b>,
+{
+    for (pi, p) in plan.iter().enumerate() {
+        if only_mod.map(|m| m != p.m).unwrap_or(false) {
+            continue;
+        }
+        let loc = if component_locs {
+            Location::Component { mod_idx: ModuleID(p.m), func_idx: FunctionID(p.f), instr_idx: p.i }
+        } else {
+            Location::Module { func_idx: FunctionID(p.f), instr_idx: p.i }
+        };
+        let val = 0x6000 + pi as i32;
+        catch(std::panic::AssertUnwindSafe(|| {
+            match p.mode {
+                0 => {
+                    it.before_at(loc);
+                }
+                1 => {
+                    it.after_at(loc);
+                }
+                2 => {
+                    it.alternate_at(loc);
+                }
+                3 => {
+                    it.empty_alternate_at(loc);
+                }
+                6 => {
+                    it.block_entry_at(loc);
+                }
+                7 => {
+                    it.block_exit_at(loc);
+                }
+                8 => {
+                    it.block_alt_at(loc);
+                }
+                9 => {
+                    it.empty_block_alt_at(loc);
+                }
+                _ => {
+                    it.semantic_after_at(loc);
+                }
+            }
+            if p.mode != 3 && p.mode != 9 {
+                it.add_instr_at(loc, wasmparser::Operator::I32Const { value: val });
+                it.add_instr_at(loc, wasmparser::Operator::Drop);
+            }
+        }))?;
+    }
+    Ok(())
+}
+
 fn walk<'b, T>(it: &mut T, fixed_mod: Option<u32>, cap: usize, plan: &mut PlanState) -> (Vec<Visit>, Term)
 where
     T: WIterator + IteratingInstrumenter<'b> + Opcode<'b>,
@@ -642,6 +700,9 @@ fn run_inject(c: &Case) -> Outcome {
         if at_end { " on-final-end" } else { "" },
         if c.mods.iter().any(|m| !m.skip.is_empty()) { " skips" } else { "" }
     ));
+    if c.at_api {
+        o.class.push_str(" location-addressed");
+    }
     let cap = 256;
     // (1) through the component iterator
     let mut comp1 = match catch(|| Component::parse(&d.bytes, false)) {
@@ -656,14 +717,22 @@ fn run_inject(c: &Case) -> Outcome {
             Ok(it) => it,
             Err(_) => return Outcome::skip("iterator panicked (judged in family visit)"),
         };
-        let (_v, t) = walk(&mut it, None, cap, &mut ps);
-        match t {
-            Term::End => {}
-            Term::Panic("inject", p) => {
+        if c.at_api {
+            if let Err(p) = apply_at(&mut it, &c.plan, None, true) {
                 o.fail(format!("injection panic component-iterator {}", p.site()), format!("{} at {}:{}", p.msg, p.file, p.line));
                 return o;
             }
-            _ => return Outcome::skip("iterator panicked (judged in family visit)"),
+            ps.applied.iter_mut().for_each(|a| *a = true);
+        } else {
+            let (_v, t) = walk(&mut it, None, cap, &mut ps);
+            match t {
+                Term::End => {}
+                Term::Panic("inject", p) => {
+                    o.fail(format!("injection panic component-iterator {}", p.site()), format!("{} at {}:{}", p.msg, p.file, p.line));
+                    return o;
+                }
+                _ => return Outcome::skip("iterator panicked (judged in family visit)"),
+            }
         }
     }
     if ps.applied.iter().any(|a| !a) {
@@ -687,14 +756,22 @@ fn run_inject(c: &Case) -> Outcome {
                 Ok(it) => it,
                 Err(_) => return Outcome::skip("module iterator panicked (C25's business)"),
             };
-            let (_v, t) = walk(&mut it, Some(m as u32), cap, &mut ps2);
-            match t {
-                Term::End => {}
-                Term::Panic("inject", p) => {
+            if c.at_api {
+                if let Err(p) = apply_at(&mut it, &c.plan, Some(m as u32), false) {
                     o.fail(format!("injection panic module-iterator {}", p.site()), format!("{} at {}:{}", p.msg, p.file, p.line));
                     return o;
                 }
-                _ => return Outcome::skip("module iterator panicked (C25's business)"),
+                ps2.applied.iter_mut().for_each(|a| *a = true);
+            } else {
+                let (_v, t) = walk(&mut it, Some(m as u32), cap, &mut ps2);
+                match t {
+                    Term::End => {}
+                    Term::Panic("inject", p) => {
+                        o.fail(format!("injection panic module-iterator {}", p.site()), format!("{} at {}:{}", p.msg, p.file, p.line));
+                        return o;
+                    }
+                    _ => return Outcome::skip("module iterator panicked (C25's business)"),
+                }
             }
             let reached = c.plan.iter().zip(ps2.applied.iter()).all(|(p, a)| p.m != m as u32 || *a);
             if !reached {
@@ -854,7 +931,7 @@ pub fn check(tier: Tier) -> i32 {
     let two = tier.pick(&mid, &full);
     let three = tier.pick(&small, &mid);
     run.rule = format!(
-        "visit: components of 1..3 core modules (k function imports x n local functions of body length l, bodies = nop padding + end) x ALL skip maps (every subset of each module's local function ids; variants that also name every imported id); 1 module: k<=2,n<=3,l<=3 with import-id variants ({} configs) x nested-component position; 2 modules: {} configs squared; 3 modules: {} configs cubed; oracle = iterator model (nested loops over wasmparser-decoded code sections), compared on (mod,func,instr,is_end,op) from construction to None and again after reset(). inject: components of 1..2 modules over {{k<=1,n in 1..2,l<=2, all skip subsets}} and 3 modules with k=0, every plan of <= {} probes (i32.const unique; drop) x modes before/after/alternate at every model-visited location (ordered pairs incl. same location), and on bodies with a block every plan of <= that many probes over ALL modes (before, after, alternate, empty alternate, function entry/exit, block entry/exit, block alternate, empty block alternate, semantic after); every core module of comp.encode() byte-equal to module.encode() after the same plan through ModuleIterator on a second parse. non-trivial class = (module count, per-module local count and skip pattern) resp. (module count, mode list, same location/module, on final end, skips present)",
+        "visit: components of 1..3 core modules (k function imports x n local functions of body length l, bodies = nop padding + end) x ALL skip maps (every subset of each module's local function ids; variants that also name every imported id); 1 module: k<=2,n<=3,l<=3 with import-id variants ({} configs) x nested-component position; 2 modules: {} configs squared; 3 modules: {} configs cubed; oracle = iterator model (nested loops over wasmparser-decoded code sections), compared on (mod,func,instr,is_end,op) from construction to None and again after reset(). inject: components of 1..2 modules over {{k<=1,n in 1..2,l<=2, all skip subsets}} and 3 modules with k=0, every plan of <= {} probes (i32.const unique; drop) x modes before/after/alternate at every model-visited location (ordered pairs incl. same location), and on bodies with a block every plan of <= that many probes over ALL modes (before, after, alternate, empty alternate, function entry/exit, block entry/exit, block alternate, empty block alternate, semantic after), each also through the location-addressed API (`*_at(loc)` + `add_instr_at`) from a fresh iterator, so that locations in other modules than the one the iterator stands in occur; every core module of comp.encode() byte-equal to module.encode() after the same plan through ModuleIterator on a second parse. non-trivial class = (module count, per-module local count and skip pattern) resp. (module count, mode list, same location/module, on final end, skips present)",
         full.len(),
         two.len(),
         three.len(),
@@ -868,18 +945,18 @@ pub fn check(tier: Tier) -> i32 {
     // ---- visit, smallest first
     let mut cases = vec![];
     for a in full.iter() {
-        cases.push(Case { mods: vec![a.clone()], nest_at: None, plan: vec![] });
+        cases.push(Case { mods: vec![a.clone()], nest_at: None, plan: vec![], at_api: false });
     }
     for a in full.iter() {
         for pos in 0..=1 {
-            cases.push(Case { mods: vec![a.clone()], nest_at: Some(pos), plan: vec![] });
+            cases.push(Case { mods: vec![a.clone()], nest_at: Some(pos), plan: vec![], at_api: false });
         }
     }
     run.run_cases("visit", &cases, run_visit);
     for a in two.iter() {
         let mut cases = vec![];
         for b in two.iter() {
-            cases.push(Case { mods: vec![a.clone(), b.clone()], nest_at: None, plan: vec![] });
+            cases.push(Case { mods: vec![a.clone(), b.clone()], nest_at: None, plan: vec![], at_api: false });
         }
         run.run_cases("visit", &cases, run_visit);
     }
@@ -888,7 +965,7 @@ pub fn check(tier: Tier) -> i32 {
         for a in small.iter() {
             for b in small.iter() {
                 for pos in 0..=2 {
-                    cases.push(Case { mods: vec![a.clone(), b.clone()], nest_at: Some(pos), plan: vec![] });
+                    cases.push(Case { mods: vec![a.clone(), b.clone()], nest_at: Some(pos), plan: vec![], at_api: false });
                 }
             }
         }
@@ -898,7 +975,7 @@ pub fn check(tier: Tier) -> i32 {
         let mut cases = vec![];
         for b in three.iter() {
             for c in three.iter() {
-                cases.push(Case { mods: vec![a.clone(), b.clone(), c.clone()], nest_at: None, plan: vec![] });
+                cases.push(Case { mods: vec![a.clone(), b.clone(), c.clone()], nest_at: None, plan: vec![], at_api: false });
             }
         }
         run.run_cases("visit", &cases, run_visit);
@@ -927,7 +1004,7 @@ pub fn check(tier: Tier) -> i32 {
     run.extra.insert("inject_components".into(), serde_json::json!(comps.len()));
     let mut cases = vec![];
     for mods in comps {
-        let base = Case { mods, nest_at: None, plan: vec![] };
+        let base = Case { mods, nest_at: None, plan: vec![], at_api: false };
         let d = match prepare(&base) {
             Ok(d) => d,
             Err(e) => {
@@ -937,7 +1014,7 @@ pub fn check(tier: Tier) -> i32 {
         };
         let model = model_visits(&d.mods, &d.skips);
         for plan in plans(&model, maxp) {
-            cases.push(Case { mods: base.mods.clone(), nest_at: None, plan });
+            cases.push(Case { mods: base.mods.clone(), nest_at: None, plan, at_api: false });
         }
         if cases.len() > 400_000 {
             run.run_cases("inject", &cases, run_inject);
@@ -956,7 +1033,7 @@ pub fn check(tier: Tier) -> i32 {
         }
         let mut cases = vec![];
         for mods in comps {
-            let base = Case { mods, nest_at: None, plan: vec![] };
+            let base = Case { mods, nest_at: None, plan: vec![], at_api: false };
             let d = match prepare(&base) {
                 Ok(d) => d,
                 Err(e) => {
@@ -966,7 +1043,11 @@ pub fn check(tier: Tier) -> i32 {
             };
             let model = model_visits(&d.mods, &d.skips);
             for plan in plans_all_modes(&model, maxp) {
-                cases.push(Case { mods: base.mods.clone(), nest_at: None, plan });
+                // the location-addressed API has no function-level modes
+                if plan.iter().all(|p| p.mode != 4 && p.mode != 5) {
+                    cases.push(Case { mods: base.mods.clone(), nest_at: None, plan: plan.clone(), at_api: true });
+                }
+                cases.push(Case { mods: base.mods.clone(), nest_at: None, plan, at_api: false });
             }
         }
         run.run_cases("inject", &cases, run_inject);
